@@ -262,8 +262,7 @@ def select(ctx, cls):
                "", fn=f.label, inst=f.qname)
 
 
-def noexcept_rule(ctx):
-    rid = "C16.noexcept"
+def noexcept_rule(ctx, rid="C16.noexcept"):
     ctx.rule(rid, "destroyObjects() is noexcept; everything that can throw is inside try { } catch (...) { } without rethrow", floor=2)
     for cls in (DD, DS):
         for f in destroy_fn(ctx, cls, 0):
